@@ -6,10 +6,17 @@ struct Case {
   ga::AppSpec spec;
   std::vector<ga::Set> hist;
   int corrupt = 0;   // which rejection variant to try (0..3)
-  template <class A> void io(A &a) { a(spec)(hist)(corrupt); }
+  std::vector<ga::Set> hist2;   // more parameter messages after a first save, then the save that is loaded
+  template <class A> void io(A &a) { a(spec)(hist)(corrupt); if (a.more()) a(hist2); }   // hist2: optional trailing field (older case files end after corrupt)
   std::string describe() const {
     std::string d = spec.describe() + " | history:";
     for (auto &s : hist) {
+      d += " " + ga::prefix_of(s.target) + ga::name_of(s.field);
+      if (s.idx >= 0) d += "[" + std::to_string(s.idx) + "]";
+      d += "=" + s.v.show(ga::kind_of(s.field));
+    }
+    if (!hist2.empty()) d += " | save | then:";
+    for (auto &s : hist2) {
       d += " " + ga::prefix_of(s.target) + ga::name_of(s.field);
       if (s.idx >= 0) d += "[" + std::to_string(s.idx) + "]";
       d += "=" + s.v.show(ga::kind_of(s.field));
@@ -25,6 +32,11 @@ Case vf_generate() {
   c.spec = ga::gen_spec();
   c.hist = ga::gen_history(c.spec, 14);
   c.corrupt = vf::pickn(4);
+  if (vf::chance(40)) {
+    c.hist2 = ga::gen_history(c.spec, 6);
+    const ga::PSpec *pp = c.spec.find(c.spec.root, ga::PRESET);
+    if (pp && vf::chance(60)) { ga::Set s; s.target = 0; s.field = ga::PRESET; s.v = ga::gen_val(ga::PRESET, *pp); s.idx = -1; s.by_symbol = vf::coin(); c.hist2.insert(c.hist2.begin() + vf::pickn((int)c.hist2.size() + 1), s); }
+  }
   return c;
 }
 
@@ -77,28 +89,49 @@ std::string vf_run(const Case &c, vf::Ctx &ctx) {
     if (!ml.empty() || nl != 2) return "an untouched application saves more than the two header lines: \"" + vf::esc(f0) + "\"" + D;
   }
   // reach the state through parameter messages
-  for (size_t i = 0; i < c.hist.size(); i++) {
-    const ga::Set &s = c.hist[i];
-    const ga::PSpec *p = c.spec.find(s.target == 0 ? c.spec.root : c.spec.sub, s.field);
-    if (!p) continue;
-    if (s.target == 2 && !app.root.psub) continue;
-    app.dispatch(ga::encode_set(s, *p));
-    ga::model_apply(model, s);
-    std::string e = ga::compare(app, model, false, "after a parameter message the application state differs from the model (harness or port defect)");
-    if (!e.empty()) return e + " at message " + std::to_string(i) + D;
-  }
+  auto apply = [&](const std::vector<ga::Set> &h) -> std::string {
+    for (size_t i = 0; i < h.size(); i++) {
+      const ga::Set &s = h[i];
+      const ga::PSpec *p = c.spec.find(s.target == 0 ? c.spec.root : c.spec.sub, s.field);
+      if (!p) continue;
+      if (s.target == 2 && !app.root.psub) continue;
+      app.dispatch(ga::encode_set(s, *p));
+      ga::model_apply(model, s);
+      std::string e = ga::compare(app, model, false, "after a parameter message the application state differs from the model (harness or port defect)");
+      if (!e.empty()) return e + " at message " + std::to_string(i) + D;
+    }
+    return "";
+  };
   // (2) save: exactly the parameters that differ from their (preset-dependent) default
-  app.attach();
-  std::string file = rtosc::save_to_file(*app.rootports, &app.root, "genapp", ver, written, {});
-  std::vector<std::string> lines = message_lines(file);
+  std::string file;
+  std::vector<std::string> lines;
   std::set<std::string> got;
-  for (auto &l : lines) {
-    std::string a = l.substr(0, l.find_first_of(" \t"));
-    if (!got.insert(a).second) return "savefile contains " + a + " twice" + D + " | file=\"" + vf::esc(file) + "\"";
+  auto save_and_check = [&]() -> std::string {
+    app.attach();
+    written.clear();
+    file = rtosc::save_to_file(*app.rootports, &app.root, "genapp", ver, written, {});
+    lines = message_lines(file);
+    got.clear();
+    for (auto &l : lines) {
+      std::string a = l.substr(0, l.find_first_of(" \t"));
+      if (!got.insert(a).second) return "savefile contains " + a + " twice" + D + " | file=\"" + vf::esc(file) + "\"";
+    }
+    std::set<std::string> want = expected_saved(model);
+    for (auto &w : want) if (!got.count(w)) return "parameter " + w + " differs from its default but is missing in the savefile" + D + " | file=\"" + vf::esc(file) + "\"";
+    for (auto &g : got) if (!want.count(g)) return "savefile contains " + g + " although it has its default value (or is not saveable)" + D + " | file=\"" + vf::esc(file) + "\"";
+    return "";
+  };
+  {
+    std::string e = apply(c.hist);
+    if (e.empty()) e = save_and_check();
+    if (e.empty() && !c.hist2.empty()) {
+      // the application keeps running after a save: more messages, then the save that is loaded below
+      e = apply(c.hist2);
+      if (e.empty()) e = save_and_check();
+      if (e.empty()) ctx.count("class.saved_twice");
+    }
+    if (!e.empty()) return e;
   }
-  std::set<std::string> want = expected_saved(model);
-  for (auto &w : want) if (!got.count(w)) return "parameter " + w + " differs from its default but is missing in the savefile" + D + " | file=\"" + vf::esc(file) + "\"";
-  for (auto &g : got) if (!want.count(g)) return "savefile contains " + g + " although it has its default value (or is not saveable)" + D + " | file=\"" + vf::esc(file) + "\"";
   // (3) load into a freshly default-initialised instance
   fresh.attach();
   ga::hook().fn = [&](const char *loc) { fresh.on_changed(loc); };
